@@ -25,6 +25,7 @@ EXPLANATION = (
     "into every shift-related key field (shifted powers, per-bound shift powers / negative powers of h): a shift "
     "taken relative to anything smaller leaves higher powers in the SRS to cheat with. The arithmetic of the shift "
     "itself is not decided.")
+EXPLANATION += (" Shared rules: the EquationHasDegreeBounds refusal rows of the combination entry points (a combination that would drop an enforced bound is refused), R17 (binary-searched bound tables and de-duplicated bound lists are sorted), R1L (no shift element kept first-wins or last-wins across a loop).")
 RULE = ("instances = 6 admission rows x {variant present+dependent+propagated, admission dominates msm} + Sonic trim "
         "row + verifier anchors x {degree_bound payload, shifted commitment payload, per-bound key elements}")
 
@@ -119,9 +120,23 @@ def run(rep, ctx, tier):
                 detail.replace("shifted commitment", "key's list of enforced bounds") if ok else
                 "a polynomial that declares a degree bound is not refused when the key enforces no bounds at all "
                 "(no comparison of the two presences, no refusing unwrap / ok_or of the list under a test of the bound)", where)
+    # a combination that would drop an enforced bound is refused (shared with C06): the bound of a term inside an equation
+    # is enforced by refusing the equation
+    for sk in ("marlin_kzg10", "marlin_pst13", "sonic_kzg10", "ipa"):
+        adt = T.SCHEMES[sk]["adt"]
+        for m, req in (("open_combinations", [[2], [3, 4]]), ("check_combinations", [[2], [3]])):
+            b = f.find1(m, self_adt=adt, trait=PC)
+            if b is not None:
+                R5.check_row(rep, ctx, "R5", "%s.%s" % (sk, m), b, adt, ["EquationHasDegreeBounds"], req)
     # verifier side
     missing = []
     anchors = {a.key: a for a in ctx.verifier_anchors(missing)}
+    # the degree-bound policy of an equation looks at every term, not at the first matching one (R1L first-match form)
+    from ..rules import everyiter as R1D0
+    for sk in ("marlin_kzg10", "marlin_pst13", "sonic_kzg10", "ipa"):
+        a = anchors.get("%s.check_combinations" % sk)
+        if a is not None:
+            R1D0.run_last_value(rep, ctx, a, "R1L")
     for sk in ("marlin_kzg10", "sonic_kzg10", "ipa"):
         info = T.SCHEMES[sk]
         db = info.get("degree_bound", {})
